@@ -1,7 +1,7 @@
 (* Table-membership correspondence (C03 table level; also used by C01 and C16). *)
 From Coq Require Import List ZArith Bool Arith.
 Import ListNotations.
-From PT Require Export Model.TableMem Spec.C03_spec.
+From PT Require Export Model.TableMem Spec.C03_spec Proofs.C03_inv.
 Open Scope Z_scope.
 
 Record case := { c_pre : tbl; c_op : mop; c_res : res; c_panic : bool; c_post : tbl }.
@@ -35,6 +35,8 @@ Definition check_case (c : case) : list (nat * nat) :=
   (* the model is claimed faithful on states that satisfy the bookkeeping invariant *)
   if negb (seat_inv (c_pre c)) then [] else
   let '(r, t') := mstep (c_pre c) (c_op c) in
+  (* the premise of the invariant theorem: the seats the implementation drew are distinct empty seats (code 1: outside the guard) *)
+  (if draws_ok_op (c_pre c) (c_op c) || match c_res c with Err => true | Ok => false end then [] else [(1%nat, 0%nat)]) ++
   (if negb (c_panic c) && res_eqb r (c_res c) && tbl_eqb t' (c_post c) then [] else [(2%nat, 0%nat)]) ++
   (if c_panic c then [(3%nat, 3%nat)]
    else if C03_ok (c_pre c) (c_op c) (c_res c) (c_post c) then []
